@@ -48,6 +48,25 @@ const RESERVED: &[&str] = &[
     "with",
 ];
 
+/// Words that are only reserved in strict mode code (which every ES module is), plus the two
+/// identifiers strict mode does not allow to be bound. They are fine as property and method names,
+/// so only bindings (method parameters) need to avoid them.
+const STRICT_MODE_RESERVED: &[&str] = &[
+    "arguments",
+    "await",
+    "enum",
+    "eval",
+    "implements",
+    "interface",
+    "let",
+    "package",
+    "private",
+    "protected",
+    "public",
+    "static",
+    "yield",
+];
+
 /// From https://developer.mozilla.org/en-US/docs/Web/JavaScript/Reference/Global_Objects.
 ///
 /// If you create a class from these, JS will error. So we throw an error if that happens.
@@ -322,7 +341,7 @@ impl<'tcx> JSFormatter<'tcx> {
     /// they cannot be reserved words.
     pub fn fmt_method_param_name<'a>(&self, param_name: &'a str) -> Cow<'a, str> {
         let name = self.fmt_param_name(param_name);
-        if RESERVED.contains(&&*name) {
+        if RESERVED.contains(&&*name) || STRICT_MODE_RESERVED.contains(&&*name) {
             format!("{name}_").into()
         } else {
             name
